@@ -28,6 +28,7 @@ RULE = ("cases = seeded samples over method x bc_type x extrapolation mode x gri
         "dtype x query layout, plus the full (bc, extrap) table on small grids and the nx in {3,4,5} table; non-trivial = samples not "
         "constant, the case really went through BOTH evaluation formulas (counted by a wrapper on _interp) and all four "
         "(route x size) results were compared with the reference (values, d/dy, d/dxq)")
+RULE += ('; every second extrapolation callable is defined (finite, differentiable) outside the sample range only')
 MIN_NONTRIVIAL = {"quick": 900, "thorough": 9000}
 ASSUMPTIONS = ["sample positions distinct, 1-D, never requiring grad; x in [-3, 6], range 0.5-4; adjacent spacing ratio <= e^3, max/min spacing <= 1e3",
                "queries 1-D; outside queries lie within 2.6 ranges of the sample range and keep a normalised distance >= 0.02 from every "
